@@ -60,6 +60,10 @@ class _Reject(FunctionContract):
             d["sigma"] = A.SArr.symbolic(A.REAL, n.z, "sigma")
         elif self.sigma_kind == "invvar":
             d["invvar"] = A.SArr.symbolic(A.REAL, n.z, "invvar")
+        elif self.sigma_kind == "both":
+            # both supplied: "If both sigma and invvar are set, invvar will be ignored" -- the limits are in units of the supplied sigma
+            d["sigma"] = A.SArr.symbolic(A.REAL, n.z, "sigma")
+            d["invvar"] = A.SArr.symbolic(A.REAL, n.z, "invvar")
         return d
 
     def requires(self, data, model, outmask, inmask, sigma, invvar, lower, upper, maxdev, sticky, grow):
@@ -131,6 +135,9 @@ class _Reject(FunctionContract):
                 d["sigma"] = np.array([rng.choice([0.0, 1.0, 2.5]) for _ in range(n)])
             elif self.sigma_kind == "invvar":
                 d["invvar"] = np.array([rng.choice([0.0, 1.0, 0.25]) for _ in range(n)])
+            elif self.sigma_kind == "both":
+                d["sigma"] = np.array([rng.choice([0.0, 1.0, 2.5]) for _ in range(n)])
+                d["invvar"] = np.array([rng.choice([0.0, 1.0, 0.01, 100.0]) for _ in range(n)])      # deliberately inconsistent with sigma
             yield d
 
 
@@ -139,6 +146,12 @@ for _k in ("scalar", "array", "invvar", "none"):
         _nm = "%s_%s%s" % (_k, "in" if _m[0] else "x", "out" if _m[1] else "x")
         _cls = type("Reject_" + _nm, (_Reject,), dict(sigma_kind=_k, masks=_m, name="djs_reject_sigma_" + _nm, __module__=__name__))
         globals()[_cls.__name__] = register("C17")(_cls)
+
+
+for _m in ((False, False), (True, True)):
+    _nm = "both_%s%s" % ("in" if _m[0] else "x", "out" if _m[1] else "x")
+    _cls = type("Reject_" + _nm, (_Reject,), dict(sigma_kind="both", masks=_m, name="djs_reject_sigma_" + _nm, __module__=__name__))
+    globals()[_cls.__name__] = register("C17")(_cls)
 
 
 class _RejectGrow(FunctionContract):
